@@ -543,6 +543,61 @@ func c13r10(c *Ctx) {
 			check := func(at ssa.Instruction, need int64, where string, pos token.Pos) {
 				n++
 				cuts := newCuts().AddEdges(geqEdgesOn(fn, isRoot, need)...).AddEdges(c13LenGeqEdges(fn, bufV, need)...)
+				// the same comparison made inside a boolean helper handed the count, or kept in a local boolean
+				top := cxTop(fn)
+				deep := c.cxFactCuts(top, func(fr *cxFrame, a Atom) (bool, bool) {
+					if a.Op == token.ILLEGAL || a.X == nil || a.Y == nil {
+						return false, false
+					}
+					isR := func(v ssa.Value) bool {
+						r := fr.resolve(v)
+						return r.fr == top && isRoot(stripConv(r.v))
+					}
+					op := a.Op
+					var k int64
+					var isK bool
+					if isR(a.X) {
+						k, isK = constInt(a.Y)
+					} else if isR(a.Y) {
+						k, isK = constInt(a.X)
+						switch op {
+						case token.LSS:
+							op = token.GTR
+						case token.LEQ:
+							op = token.GEQ
+						case token.GTR:
+							op = token.LSS
+						case token.GEQ:
+							op = token.LEQ
+						}
+					}
+					if !isK {
+						return false, false
+					}
+					var tE, fE bool
+					switch op {
+					case token.GEQ:
+						tE = k >= need
+					case token.GTR:
+						tE = k+1 >= need
+					case token.LSS:
+						fE = k >= need
+					case token.LEQ:
+						fE = k+1 >= need
+					case token.EQL:
+						tE = k >= need
+					}
+					if a.Neg {
+						tE, fE = fE, tE
+					}
+					return tE, fE
+				}, 3)
+				for e := range deep.Edges {
+					cuts.AddEdges(e)
+				}
+				for v := range deep.Via {
+					cuts.Via[v] = true
+				}
 				construct := fmt.Sprintf("%s#GetBytes-result@offset%d%s", fnName(fn), need, where)
 				if p := findPath(entryPoint(fn), Target{Instr: at}, cuts); p != nil {
 					c.Violate(rule, construct, fmt.Sprintf("a buffer of peer-chosen length n is indexed at a constant offset needing %d byte(s) without n >= %d having been established: n <= 0 panics", need, need), pos, c.describePath(p)...)
